@@ -100,6 +100,46 @@ def mutants(rel, text):
     return out
 
 
+C_CMP = {'<': '<=', '<=': '<', '>': '>=', '>=': '>', '==': '!=', '!=': '=='}
+C_BIN = {'+': '-', '-': '+', '<<': '>>', '>>': '<<', '&': '|', '|': '&', '&&': '||', '||': '&&'}
+
+
+def c_mutants(rel, text):
+    from fjverif.cfacts import CUnit, walk
+    from fjverif import localnames as ln
+    cu = CUnit(Repo())
+    text = cu.text
+    out = []
+    for fname, fn in ln.c_functions(cu.tu).items():
+        for n in walk(fn):
+            k = n.get('kind')
+            if k == 'BinaryOperator' and n.get('opcode') in {**C_CMP, **C_BIN} and len(n.get('inner', [])) == 2:
+                a, b = n['inner']
+                sa, sb = ln._c_span(a), ln._c_span(b)
+                if not (sa and sb):
+                    continue
+                mid = text[sa[1]:sb[0]]
+                op = n['opcode']
+                if mid.strip() != op:
+                    continue
+                new_op = C_CMP.get(op) or C_BIN[op]
+                i = sa[1] + mid.index(op)
+                new = text[:i] + new_op + text[i + len(op):]
+                line = text.count('\n', 0, i) + 1
+                out.append((f'{fname}:{line} {op} -> {new_op}: {text[sa[0]:sb[1]][:60]}', new))
+            elif k == 'UnaryOperator' and n.get('opcode') == '!' and n.get('inner'):
+                sn, sx = ln._c_span(n), ln._c_span(n['inner'][0])
+                if sn and sx and text[sn[0]:sx[0]].strip() == '!':
+                    line = text.count('\n', 0, sn[0]) + 1
+                    out.append((f'{fname}:{line} drop !: {text[sn[0]:sn[1]][:60]}', text[:sn[0]] + text[sx[0]:]))
+            elif k == 'IntegerLiteral' and n.get('value', '').isdigit() and 0 <= int(n['value']) <= 64:
+                sn = ln._c_span(n)
+                if sn and text[sn[0]:sn[1]].isdigit():
+                    line = text.count('\n', 0, sn[0]) + 1
+                    out.append((f'{fname}:{line} const {n["value"]} -> {int(n["value"]) + 1}', text[:sn[0]] + str(int(n['value']) + 1) + text[sn[1]:]))
+    return out
+
+
 def analyse(args):
     rel, desc, new_text, props = args
     known = load_known_findings()
@@ -124,6 +164,10 @@ def run_tests(args):
         subprocess.run(['rsync', '-a', '--exclude', '.git', '--exclude', 'build', '/repo/', str(td) + '/'], check=True)
         (td / rel).write_text(new_text)
         env = dict(os.environ, PYTHONPATH=str(td), PYTHONDONTWRITEBYTECODE='1')
+        if rel.endswith('.c'):
+            b = subprocess.run(['/venv/bin/python', 'build_fjcore.py'], cwd=td, env=env, capture_output=True, text=True, timeout=600)
+            if b.returncode != 0:
+                return rel, desc, 98, 'does not build'
         r = subprocess.run(['/venv/bin/python', '-m', 'pytest', '-x', '-q', '-p', 'no:cacheprovider', '--timeout=300'], cwd=td, env=env,
                            capture_output=True, text=True, timeout=1500)
         tail = (r.stdout.strip().splitlines() or [''])[-1]
@@ -142,13 +186,13 @@ if __name__ == '__main__':
     repo = Repo()
     tasks = []
     for rel in sorted({f for s in READS.values() for f in s}):
-        if not rel.endswith('.py') or (only and only not in rel):
+        if (only and only not in rel) or not rel.endswith('.c' if '--c' in sys.argv else '.py'):
             continue
         props = [p for p in PROPS if rel in READS[p]]
-        for desc, new in mutants(rel, repo.src(rel)):
+        for desc, new in (c_mutants(rel, repo.src(rel)) if rel.endswith('.c') else mutants(rel, repo.src(rel))):
             tasks.append((rel, desc, new, props))
     if '--phase-b' in sys.argv:
-        unc = json.loads(Path('/tmp/mutant_silent.json').read_text())
+        unc = json.loads(Path('/tmp/mutant_silent_c.json' if '--c' in sys.argv else '/tmp/mutant_silent.json').read_text())
         survivors = []
         with ProcessPoolExecutor(max_workers=jobs) as ex:
             for rel, desc, rc, tail in ex.map(run_tests, [(k, t[0], t[1], t[2]) for k, t in enumerate(unc)]):
@@ -156,7 +200,7 @@ if __name__ == '__main__':
                 if rc == 0:
                     survivors.append((rel, desc))
         print(f'phase B: {len(unc) - len(survivors)} of the {len(unc)} silent mutants fail the test suite; {len(survivors)} survive both')
-        Path('/tmp/mutant_survivors.json').write_text(json.dumps(survivors, indent=1))
+        Path('/tmp/mutant_survivors_c.json' if '--c' in sys.argv else '/tmp/mutant_survivors.json').write_text(json.dumps(survivors, indent=1))
         sys.exit(0)
     random.Random(1).shuffle(tasks)
     if mx:
@@ -170,7 +214,7 @@ if __name__ == '__main__':
             else:
                 uncaught.append(t)
     print(f'phase A: {caught} of {len(tasks)} mutants reported by a check; {len(uncaught)} silent')
-    Path('/tmp/mutant_silent.json').write_text(json.dumps([[t[0], t[1], t[2]] for t in uncaught]))
+    Path('/tmp/mutant_silent_c.json' if '--c' in sys.argv else '/tmp/mutant_silent.json').write_text(json.dumps([[t[0], t[1], t[2]] for t in uncaught]))
     if '--no-tests' in sys.argv:
         for rel, desc, _, _ in uncaught:
             print('SILENT', rel, desc)
@@ -182,4 +226,4 @@ if __name__ == '__main__':
                 survivors.append((rel, desc))
                 print('SURVIVOR', rel, desc)
     print(f'phase B: {len(uncaught) - len(survivors)} of the silent mutants fail the test suite; {len(survivors)} survive both')
-    Path('/tmp/mutant_survivors.json').write_text(json.dumps(survivors, indent=1))
+    Path('/tmp/mutant_survivors_c.json' if '--c' in sys.argv else '/tmp/mutant_survivors.json').write_text(json.dumps(survivors, indent=1))
